@@ -143,6 +143,20 @@ pub fn check_big_groups(na: u32, nb: u32, stats: &mut Stats) -> CheckResult {
         well_formed_big(&(&ga & &gb), &inter, "bitand(&,&)")?;
         well_formed_big(&(&gb & &ga), &inter, "bitand(&,&)")?;
         well_formed_big(&(&ga | &ga), &sa, "bitor(same-object)")?;
+        // a few ids against the long group: its smallest and largest id, every 97th member, and
+        // non-members below, between and above
+        let mut few: Vec<u32> = a_ids.iter().copied().step_by(97).collect();
+        few.extend([*a_ids.first().unwrap_or(&0), *a_ids.last().unwrap_or(&0), 1, a_ids.last().unwrap_or(&0) + 1, a_ids.last().unwrap_or(&0) + 7, 4]);
+        let sc: BTreeSet<u32> = few.iter().copied().collect();
+        let gc = HpoGroup::from(few.clone());
+        well_formed_big(&gc, &sc, "constructor")?;
+        let un: BTreeSet<u32> = sa.union(&sc).copied().collect();
+        let inter: BTreeSet<u32> = sa.intersection(&sc).copied().collect();
+        well_formed_big(&(&ga | &gc), &un, "bitor(&,&)")?;
+        well_formed_big(&(&gc | &ga), &un, "bitor(&,&)")?;
+        well_formed_big(&(&ga & &gc), &inter, "bitand(&,&)")?;
+        well_formed_big(&(&gc & &ga), &inter, "bitand(&,&)")?;
+        well_formed_big(&(&ga & &ga), &sa, "bitand(same-object)")?;
         for id in [0u32, 1, 4, u32::MAX, 9_999_999] {
             let mut plus = sa.clone();
             plus.insert(id);
@@ -393,10 +407,10 @@ pub fn check(c: &Case, stats: &mut Stats) -> CheckResult {
     }
 }
 
-/// A few ids against a long run (65 - 260 ids, beyond the pool): some of the few are members of the
+/// A few ids against a long run (65 - 260, 500 - 700 or 1000 - 1100 ids, beyond the pool): some of the few are members of the
 /// run, some fall between its elements, below or above it.
 fn tiny_vs_large_strategy() -> impl Strategy<Value = Case> {
-    (65usize..=260, 0u32..5000, 1u32..4, vec((any::<u16>(), any::<bool>()), 1..5), any::<u16>(), (0u8..6, 0u8..6), any::<bool>()).prop_map(|(n, start, step, few, idp, (c1, c2), swap)| {
+    (prop_oneof![3 => 65usize..=260, 1 => 500usize..=700, 1 => 1000usize..=1100], 0u32..5000, 1u32..4, vec((any::<u16>(), any::<bool>()), 1..5), any::<u16>(), (0u8..6, 0u8..6), any::<bool>()).prop_map(|(n, start, step, few, idp, (c1, c2), swap)| {
         let large: Vec<u32> = (0..n as u32).map(|i| start + i * step * 2).collect();
         let small: Vec<u32> = few
             .iter()
@@ -535,7 +549,7 @@ impl Property for C12 {
         replay_typed::<Case, _>(case, stats, check)
     }
     fn extra(&self, tier: Tier, _seed: u64, stats: &mut Stats) -> Vec<(Value, Failure)> {
-        let mut sizes = vec![(255u32, 256u32), (256, 257), (300, 31), (65_535, 65_536), (65_537, 300), (70_000, 66_000)];
+        let mut sizes = vec![(255u32, 256u32), (256, 257), (300, 31), (511, 512), (513, 600), (1023, 1025), (4095, 4097), (65_535, 65_536), (65_537, 300), (70_000, 66_000)];
         if tier == Tier::Thorough {
             sizes.extend([(1_000_000, 70_000), (4096, 4097), (131_072, 131_071)]);
         }
